@@ -128,13 +128,30 @@ func (r *chunkReader) Read(p []byte) (int, error) {
 
 type recWriter struct {
 	calls    [][]byte
-	failFrom int // 1-based call index from which every call fails; 0 = never
+	failFrom int   // 1-based call index from which every call fails; 0 = never
+	failErr  error // the error returned then (nil = errWrite)
 	accepted bytes.Buffer
+}
+
+// the error values a destination may return: whatever it is, it has to surface (a destination that is a pipe whose
+// reader went away returns io.ErrClosedPipe, a file os.ErrClosed, a short device io.ErrShortWrite)
+var writeErrPool = []error{errWrite, io.ErrClosedPipe, io.ErrShortWrite, os.ErrClosed}
+
+func isWriteErr(e error) bool {
+	for _, w := range writeErrPool {
+		if errors.Is(e, w) {
+			return true
+		}
+	}
+	return false
 }
 
 func (w *recWriter) Write(p []byte) (int, error) {
 	w.calls = append(w.calls, append([]byte{}, p...))
 	if w.failFrom > 0 && len(w.calls) >= w.failFrom {
+		if w.failErr != nil {
+			return 0, w.failErr
+		}
 		return 0, errWrite
 	}
 	w.accepted.Write(p)
@@ -148,7 +165,7 @@ func errStr(e error) string {
 	if errors.Is(e, errRead) {
 		return "E7"
 	}
-	if errors.Is(e, errWrite) {
+	if isWriteErr(e) {
 		return "E999"
 	}
 	if errors.Is(e, minify.ErrNotExist) {
@@ -537,7 +554,8 @@ func runFault(m *minify.M, s sample, r *vh.Rand) {
 	// writer fails from its k-th call on
 	for k := 1; k <= ncalls+2; k++ {
 		opts := map[string]string{"fault": "writer", "k": fmt.Sprint(k), "calls": fmt.Sprint(ncalls)}
-		w := &recWriter{failFrom: k}
+		we := writeErrPool[(k+len(in))%len(writeErrPool)]
+		w := &recWriter{failFrom: k, failErr: we}
 		var err error
 		ok := withTimeout(func() { err = m.Minify(s.mt, w, bytes.NewReader(in)) })
 		res.Evaluations++
@@ -545,7 +563,7 @@ func runFault(m *minify.M, s sample, r *vh.Rand) {
 			viol("fault:writer-failure-blocks", s, "", "", "", opts)
 			continue
 		}
-		if k <= ncalls && (err == nil || (p.err == nil && !errors.Is(err, errWrite))) {
+		if k <= ncalls && (err == nil || (p.err == nil && !errors.Is(err, we))) {
 			viol("fault:writer-error-not-returned", s, "plain Minify", errStr(err), "E999", opts)
 		}
 		if k > ncalls && errStr(err) != errStr(p.err) {
@@ -556,7 +574,7 @@ func runFault(m *minify.M, s sample, r *vh.Rand) {
 		}
 		modelCase("minify", p, probe, "C"+hexd(in), k, errStr(err), w.accepted.Bytes())
 		// through the Writer wrapper: the error must come out of Write or Close, and Close must return
-		w2 := &recWriter{failFrom: k}
+		w2 := &recWriter{failFrom: k, failErr: we}
 		var cerr error
 		var werr error
 		ok = withTimeout(func() {
@@ -575,7 +593,7 @@ func runFault(m *minify.M, s sample, r *vh.Rand) {
 		res.Evaluations++
 		if !ok {
 			viol("fault:writer-wrapper-close-blocks", s, "", "", "", opts)
-		} else if k <= ncalls && ((cerr == nil && werr == nil) || (p.err == nil && !errors.Is(cerr, errWrite) && !errors.Is(werr, errWrite))) {
+		} else if k <= ncalls && ((cerr == nil && werr == nil) || (p.err == nil && !errors.Is(cerr, we) && !errors.Is(werr, we))) {
 			viol("fault:writer-error-not-returned", s, "Writer wrapper", errStr(cerr), "E999", opts)
 		}
 	}
